@@ -36,6 +36,12 @@ K4_NAMES = {
     "core::char::from_digit",
     "core::cell::RefCell::<T>::borrow", "core::cell::RefCell::<T>::borrow_mut",
     "core::mem::maybe_uninit::MaybeUninit::<T>::assume_init",
+    # capacity requests: panic with "capacity overflow" when the byte size exceeds isize::MAX (a length taken from a value,
+    # e.g. a saturated range length, does that; a length of an existing collection cannot)
+    "alloc::vec::Vec::<T>::with_capacity", "alloc::vec::Vec::<T, A>::with_capacity_in", "alloc::vec::Vec::<T, A>::reserve", "alloc::vec::Vec::<T, A>::reserve_exact",
+    "alloc::vec::from_elem", "alloc::string::String::with_capacity", "alloc::string::String::reserve", "alloc::vec::Vec::<T, A>::resize",
+    "alloc::str::<impl str>::repeat", "alloc::slice::<impl [T]>::repeat", "std::collections::hash::map::HashMap::<K, V>::with_capacity",
+    "alloc::collections::vec_deque::VecDeque::<T>::with_capacity",
 }
 K4_INT_METHODS = {"pow", "abs", "from_str_radix", "div_euclid", "rem_euclid", "isqrt", "ilog", "ilog2", "ilog10", "next_power_of_two",
                   "abs_diff_", "strict_add", "strict_sub", "strict_mul"}
